@@ -5,7 +5,7 @@ From Coq Require Import NArith List Bool.
 Import ListNotations.
 From Coq Require Import ZArith.
 From CXV Require Import Gen.TokTy Gen.ParserTables Parse.Balanced Gen.Blocks Parse.BlocksSM.
-From CXV Require Import Base.Regex Base.Cost Gen.LexRules Lex.PlyLoop Gen.StreamTables Stream.TokBuf Fmt.TokFmt PP.Filters Misc.ReprModel Gen.Schema Parse.Fold Parse.Declarator Parse.DeclSpec Parse.EnumList Parse.BaseClause Parse.NsHeader Parse.Specs Parse.VarStmt Parse.FnTail Parse.Init Parse.Members Parse.MethodTail Parse.Template Parse.PQName Parse.Using Parse.EnumDecl Parse.ClassEnum Parse.TemplateArg Parse.CtorDtor Parse.ParamsX Parse.DeclStmt Parse.TemplateStmt Parse.MemberStmt.
+From CXV Require Import Base.Regex Base.Cost Gen.LexRules Lex.PlyLoop Gen.StreamTables Stream.TokBuf Fmt.TokFmt PP.Filters Misc.ReprModel Gen.Schema Parse.Fold Parse.Declarator Parse.DeclSpec Parse.EnumList Parse.BaseClause Parse.NsHeader Parse.Specs Parse.VarStmt Parse.FnTail Parse.Init Parse.Members Parse.MethodTail Parse.Template Parse.PQName Parse.Using Parse.EnumDecl Parse.ClassEnum Parse.TemplateArg Parse.CtorDtor Parse.ParamsX Parse.DeclStmt Parse.TemplateStmt Parse.MemberStmt Parse.OpName.
 From CXV Require Parse.Requires.
 Open Scope N_scope.
 
@@ -792,8 +792,30 @@ Definition run_member_stmt (args : list N) : list N :=
   | _ => [1; 0]
   end.
 
+(* 109: a typedef statement behind the `typedef` keyword, through the declaration loop: declarator budget, then tokens.
+   Output: 0, rest length, count, then the entries as for 106 *)
+Definition run_typedef_decl_stmt (args : list N) : list N :=
+  match args with
+  | n :: r =>
+      let toks := dec_tks r in
+      match typedef_decl_stmt (N.to_nat n) (4 * length toks + 8) toks with
+      | DOk (l, rest) => 0 :: nlen rest :: nlen l :: flat_map enc_entry l
+      | DErr e => [1; e]
+      end
+  | [] => [1; 0]
+  end.
+
+(* 110: an operator name behind the `operator` keyword.  Output: 0, rest length, name length, name tokens *)
+Definition run_op_name (args : list N) : list N :=
+  match op_name (dec_tks args) with
+  | DOk (v, rest) => 0 :: nlen rest :: nlen v :: enc_tks v
+  | DErr e => [1; e]
+  end.
+
 Definition run_case (cmd : N) (args : list N) : list N :=
   match cmd, args with
+  | 110, _ => run_op_name args
+  | 109, _ => run_typedef_decl_stmt args
   | 108, _ => run_member_stmt args
   | 107, _ => run_requires args
   | 106, _ => run_decl_stmt args
